@@ -300,12 +300,21 @@ pub open spec fn want_batch_forget<F: FileSystem>(fs: &F, hd: InHeader, cx: Cont
     fs.allowed_batch_forget(cx, Seq::new(a.count as nat, |i: int| (ino_of::<F>(forget_one_at(rem, i).nodeid), forget_one_at(rem, i).nlookup)))
 }
 pub open spec fn reply_batch_forget<F: FileSystem>(fs: &F, hd: InHeader, rem: Seq<u8>, b: Seq<u8>) -> bool { false }
-// readdir / readdirplus (Server::do_readdir is NOT verified: its closure captures &mut cursor as &mut dyn FnMut).  What any
-// directory reply must satisfy: "whole 8-byte-aligned entries within the size the client asked for"
-pub open spec fn dir_reply_ok(u: u64, size: u32, b: Seq<u8>) -> bool { frame_ok(u, b) && b.len() - 16 <= size as int && (b.len() - 16) % 8 == 0 }
-pub open spec fn reply_readdir<F: FileSystem>(fs: &F, hd: InHeader, rem: Seq<u8>, b: Seq<u8>) -> bool {
-    if rem.len() >= 40 { let a = <ReadIn as ByteValued>::sdecode(rem.subrange(0, 40)); is_err_reply(hd.unique, b) || dir_reply_ok(hd.unique, a.size, b) }
-    else { is_err_reply(hd.unique, b) }
+// readdir / readdirplus: fuse_read_in; the reply is the header followed by the entries the filesystem got appended through
+// add_entry; "within the size the client asked for": the size limit handed to the filesystem's callback is the request's `size`
+pub open spec fn wf_readdir(hd: InHeader, rem: Seq<u8>) -> bool { rem.len() >= 40 }
+pub open spec fn want_readdir<F: FileSystem>(fs: &F, hd: InHeader, cx: Context, rem: Seq<u8>) -> bool {
+    let a = <ReadIn as ByteValued>::sdecode(rem.subrange(0, 40)); fs.allowed_readdir(cx, ino_of::<F>(hd.nodeid), fh_of::<F>(a.fh), a.size, a.offset, a.size)
+}
+pub open spec fn want_readdirplus<F: FileSystem>(fs: &F, hd: InHeader, cx: Context, rem: Seq<u8>) -> bool {
+    let a = <ReadIn as ByteValued>::sdecode(rem.subrange(0, 40)); fs.allowed_readdirplus(cx, ino_of::<F>(hd.nodeid), fh_of::<F>(a.fh), a.size, a.offset, a.size)
+}
+pub open spec fn reply_readdir<F: FileSystem>(fs: &F, hd: InHeader, rem: Seq<u8>, cap: nat, b: Seq<u8>) -> bool {
+    if rem.len() >= 40 {
+        let a = <ReadIn as ByteValued>::sdecode(rem.subrange(0, 40));
+        if cap < a.size { b == errno_reply(hd.unique, 12) }            // the reply buffer cannot hold what the client asks for: ENOMEM
+        else { b == (match fs.res_unit() { Ok(v) => hdr_bytes(16 + fs.res_dir_data().len(), 0, hd.unique) + fs.res_dir_data(), Err(e) => err_reply(hd.unique, e) }) }
+    } else { is_err_reply(hd.unique, b) }
 }
 // DAX window mapping (virtio-fs)
 pub open spec fn wf_setupmapping(hd: InHeader, rem: Seq<u8>) -> bool { rem.len() >= 40 }
@@ -356,7 +365,7 @@ OPCODES = [(1, 'lookup'), (2, 'forget'), (3, 'getattr'), (4, 'setattr'), (5, 're
            (29, 'releasedir'), (30, 'fsyncdir'), (31, 'getlk'), (32, 'setlk'), (33, 'setlkw'), (34, 'access'), (35, 'create'), (36, 'interrupt'),
            (37, 'bmap'), (38, 'destroy'), (39, 'ioctl'), (40, 'poll'), (41, 'notify_reply'), (42, 'batch_forget'), (43, 'fallocate'),
            (44, 'readdirplus'), (45, 'rename2'), (46, 'lseek'), (48, 'setupmapping'), (49, 'removemapping')]
-NO_WANT = {'interrupt', 'destroy', 'notify_reply', 'readdir', 'readdirplus'}
+NO_WANT = {'interrupt', 'destroy', 'notify_reply'}
 
 
 def dispatch_specs():
@@ -369,8 +378,8 @@ def dispatch_specs():
             r = 'reply_%s(fs, hd, rem, has_req, b)' % op
         elif op == 'interrupt':
             r = 'false'
-        elif op == 'readdirplus':
-            r = 'reply_readdir(fs, hd, rem, b)'
+        elif op in ('readdir', 'readdirplus'):
+            r = 'reply_readdir(fs, hd, rem, cap, b)'
         else:
             r = 'reply_%s(fs, hd, rem, b)' % op
         rl.append('        else if hd.opcode == %d { %s }' % (n, r))
@@ -380,12 +389,12 @@ def dispatch_specs():
             wl.append('        &&& (hd.opcode == 41 ==> fs.allowed_notify_reply())')
         elif op not in NO_WANT:
             g = 'has_req && ' if op in ('setupmapping', 'removemapping') else ''
-            wl.append('        &&& (hd.opcode == %d && %swf_%s(hd, rem) ==> want_%s(fs, hd, cx, rem))' % (n, g, op, op))
+            wl.append('        &&& (hd.opcode == %d && %swf_%s(hd, rem) ==> want_%s(fs, hd, cx, rem))' % (n, g, 'readdir' if op == 'readdirplus' else op, op))
     return '''
 // =====================================================================================================================
 // Top-level specification of Server::handle_message (C01, C02, C03): `req` is the whole request as the client sent it
 pub open spec fn ctx_of(hd: InHeader) -> Context { Context { uid: hd.uid, gid: hd.gid, pid: hd.pid as i32 } }
-pub open spec fn reply_msg<F: FileSystem>(fs: &F, minor: u32, has_req: bool, req: Seq<u8>, b: Seq<u8>) -> bool {
+pub open spec fn reply_msg<F: FileSystem>(fs: &F, minor: u32, has_req: bool, cap: nat, req: Seq<u8>, b: Seq<u8>) -> bool {
     if req.len() < 40 { false } else {
         let hd = <InHeader as ByteValued>::sdecode(req.subrange(0, 40)); let rem = req.skip(40);
         if fs.res_id_remap_with_nodeid() is Err { is_err_reply(hd.unique, b) }
@@ -466,7 +475,7 @@ def EXT(name):
 
 def unit(root='/repo'):
     notes = []
-    trait_txt, info, _ = fsmodel.gen_trait(root, notes, server=True)
+    trait_txt, info, _ = fsmodel.gen_trait(root, notes, server=True, dirsink=True)
     INFO.clear()
     INFO.update(info)
     items = []
@@ -721,9 +730,19 @@ impl<'a, S: BitmapSlice> ZeroCopyReader for ZcReader<'a, S> { }
                 proof { if ctx.r.rem@.len() >= 16 { assert(ctx.r.rem@.subrange(0, 16) =~= rem0.subrange(4 + 16 * (_i as int), 4 + 16 * (_i as int) + 16)); assert(ctx.r.rem@.skip(16) =~= rem0.skip(4 + 16 * (_i as int + 1))); } }'''),
                     ('match self\n                .fs\n                .removemapping(', 'before',
                      'proof { let a = <RemovemappingIn as ByteValued>::sdecode(rem0.subrange(0, 4)); assert(requests@ =~= Seq::new(a.count as nat, |i: int| rm_one_at(rem0, i))); }')]),
-        Fn(SYNC, SRV, 'do_readdir', requires=handler_contract('readdir', want=False), external_body=True, props=['C01']),
-        Fn(SYNC, SRV, 'readdir', requires=handler_contract('readdir', want=False), props=['C01']),
-        Fn(SYNC, SRV, 'readdirplus', requires=handler_contract('readdir', want=False), props=['C01']),
+        Fn(SYNC, SRV, 'do_readdir', props=['C01'], canary=True,
+           requires=[c for c in handler_contract('readdir', want=False, reply_extra='ctx.w.cap@, ')] + [
+               'wf_readdir(ctx.in_header, ctx.r.rem@) ==> (if plus { want_readdirplus(&self.fs, ctx.in_header, ctx.context, ctx.r.rem@) } else { want_readdir(&self.fs, ctx.in_header, ctx.context, ctx.r.rem@) }) // [C02.readdir.args]'],
+           # the add_entry closures capture `&mut cursor` and are passed as `&mut dyn FnMut` (both rejected by Verus): each is
+           # abstracted by its two free parameters - the cursor it appends to and the size limit it passes to add_dirent
+           body_resub=[(r'&mut \|d, e\| add_dirent\(&mut cursor, ([^,]+), d, Some\(e\)\)', r'&mut cursor, \1', 'readdirplus callback = add_dirent on this cursor with this limit'),
+                       (r'&mut \|d\| add_dirent\(&mut cursor, ([^,]+), d, None\)', r'&mut cursor, \1', 'readdir callback = add_dirent on this cursor with this limit')],
+           splices=[E0, ('^', 'after', 'proof { reveal(errno_reply); }'),
+                    ('let out = OutHeader {', 'before', 'proof { assert(cursor.buf@ =~= self.fs.res_dir_data()); }'),
+                    ('ctx.w.commit(Some(&cursor))', 'before',
+                     'proof { lemma_read_reply_frame(ctx.in_header.unique, self.fs.res_dir_data()); assert(commit_bytes(&ctx.w, Some(&cursor)) =~= hdr_bytes(16 + self.fs.res_dir_data().len(), 0, ctx.in_header.unique) + self.fs.res_dir_data()); }')]),
+        Fn(SYNC, SRV, 'readdir', requires=handler_contract('readdir', reply_extra='ctx.w.cap@, '), props=['C01']),
+        Fn(SYNC, SRV, 'readdirplus', requires=[c.replace('want_readdir(', 'want_readdirplus(') for c in handler_contract('readdir', reply_extra='ctx.w.cap@, ')], props=['C01']),
         Fn(SMOD, SRV, 'remap_ctx_ids', sig_subst=[('SrvContext<F, S>', "SrvContext<'_, F, S>")],
            requires=['convs_ok::<F>()', 'self.fs.touch_ok()',
                      'self.fs.allowed_id_remap_with_nodeid(old(ctx).context, ino_of::<F>(old(ctx).in_header.nodeid)) // [C02.remap.args]'],
@@ -737,7 +756,7 @@ impl<'a, S: BitmapSlice> ZeroCopyReader for ZcReader<'a, S> { }
                         uniq(w.id@) == hd.unique && (may_reply(w.id@) <==> (hd.opcode != 2 && hd.opcode != 42)) }) // [C01.forget]''',
                      'want_msg(&self.fs, vu_req is Some, r.rem@) // [C02.dispatch]',
                      '''r.rem@.len() >= 56 ==> forall|v: ServerVersion| ({ let a = <InitIn as ByteValued>::sdecode(r.rem@.subrange(40, 56)); v.major == a.major && v.minor == a.minor }) ==> #[trigger] self.vers.may_store(v) // [C12.vers]''',
-                     'forall|b: Seq<u8>| #[trigger] emit_ok(w.id@, b) <==> reply_msg(&self.fs, self.vers.cur().minor, vu_req is Some, r.rem@, b) // [C03.dispatch]'],
+                     'forall|b: Seq<u8>| #[trigger] emit_ok(w.id@, b) <==> reply_msg(&self.fs, self.vers.cur().minor, vu_req is Some, w.cap@, r.rem@, b) // [C03.dispatch]'],
            splices=[('^', 'after', 'broadcast use axiom_sbytes_len, lemma_err_reply_frame; let ghost req0 = r.rem@; proof { if req0.len() >= 56 { assert(req0.skip(40).subrange(0, 16) =~= req0.subrange(40, 56)); } reveal(errno_reply); assert((1u32 << 20) == 0x10_0000u32) by (bit_vector); assert(MAX_BUFFER_SIZE == 0x10_0000u32); }')],
            props=['C01'], canary=True),
     ]
